@@ -348,7 +348,13 @@ func c11Ageing(ev *vlib.Evidence, n int) {
 			scs = append(scs, sc)
 		}
 	}
-	poolFinish := c11PoolAgeingPrepare(ev, n/6+4)
+	// every pool-level scenario holds a world (and its store) open across the shared wait:
+	// their number is bounded, whatever the tier
+	nPool := n/6 + 4
+	if nPool > 16 {
+		nPool = 16
+	}
+	poolFinish := c11PoolAgeingPrepare(ev, nPool)
 	time.Sleep(21 * time.Second)
 	defer poolFinish()
 	for _, sc := range scs {
